@@ -25,7 +25,8 @@ type row struct {
 	Strand int    `json:"strand"`
 }
 
-var alpha = alphabet.DNAgapped
+var alpha alphabet.Complementor = alphabet.DNAgapped
+var alphaName = "DNA"
 
 const gap = '-'
 
@@ -254,7 +255,14 @@ func observe(kind string, c interface{}) (o obs) {
 
 // ------------------------------------------------------------------ random histories
 
-const lettersPool = "acgtnACGTN-"
+// the letters drawn for cells: those of the gapped DNA alphabet, or (single sequences of every other round) all of
+// the redundant DNA alphabet, whose ambiguity codes complement to other codes (m/k, r/y, b/v, d/h)
+var lettersPool = "acgtnACGTN-"
+
+const (
+	plainPool     = "acgtnACGTN-"
+	redundantPool = "acmgrsvtwyhkdbnxACMGRSVTWYHKDBNX-"
+)
 
 func randCell(rng *rand.Rand, q bool) cell {
 	c := cell{int(lettersPool[rng.Intn(len(lettersPool))]), 0}
@@ -418,10 +426,15 @@ func emptyProbes(w *vt.W) {
 // Histories runs n random edit histories on real containers.
 func Histories(w *vt.W, rng *rand.Rand, n int, small bool) {
 	kinds := []string{"lin", "qlin", "aln", "qaln", "multi", "qmulti"}
+	defer func() { alpha, lettersPool, alphaName = alphabet.DNAgapped, plainPool, "DNA" }()
 	emptyProbes(w)
 	for id := 0; id < n; id++ {
 		kind := kinds[id%len(kinds)]
 		q := isQ(kind)
+		alpha, lettersPool, alphaName = alphabet.DNAgapped, plainPool, "DNA"
+		if (kind == "lin" || kind == "qlin") && (id/len(kinds))%2 == 1 {
+			alpha, lettersPool, alphaName = alphabet.DNAredundant, redundantPool, "DNAredundant"
+		}
 		maxRows, maxCols := 6, 30
 		if small {
 			maxRows, maxCols = 3, 4
@@ -446,7 +459,7 @@ func Histories(w *vt.W, rng *rand.Rand, n int, small bool) {
 		if err != nil {
 			vt.Fatal("build %s: %v", kind, err)
 		}
-		w.Emit(vt.Ev{"ev": "reset", "id": id, "kind": kind, "alpha": "DNA", "rows": rows, "obs": observe(kind, c)})
+		w.Emit(vt.Ev{"ev": "reset", "id": id, "kind": kind, "alpha": alphaName, "rows": rows, "obs": observe(kind, c)})
 		m := &model{kind: kind, rows: append([]row{}, rows...)}
 		for i := range m.rows {
 			m.rows[i].Cells = append([]cell{}, m.rows[i].Cells...)
@@ -540,11 +553,17 @@ func edit(rng *rand.Rand, m *model, kind string, c interface{}) (vt.Ev, interfac
 			}
 			i := rng.Intn(nrows)
 			comp := rng.Intn(2) == 0
+			// the row is given a strand of its own first, as a row added from a stranded sequence has: RevComp
+			// must negate it, Reverse must clear it
+			get, set := rowStrand(c, i)
+			sb := []int{1, -1}[rng.Intn(2)]
+			set(sb)
+			sb = get()
 			es := guardErr(func() error { rowMirror(c, i, comp); return nil })
 			if comp {
-				return vt.Ev{"op": "rowrevcomp", "i": i + 1, "err": es}, c
+				return vt.Ev{"op": "rowrevcomp", "i": i + 1, "err": es, "sb": sb, "sa": get()}, c
 			}
-			return vt.Ev{"op": "rowreverse", "i": i + 1, "err": es}, c
+			return vt.Ev{"op": "rowreverse", "i": i + 1, "err": es, "sb": sb, "sa": get()}, c
 		case 0:
 			es := guardErr(func() error { c.(rc).RevComp(); return nil })
 			return vt.Ev{"op": "revcomp", "err": es}, c
